@@ -338,6 +338,14 @@ qb_ipcc_recv(struct qb_ipcc_connection * c, void *msg_ptr,
 	if (c == NULL) {
 		return -EINVAL;
 	}
+	if (!c->is_connected) {
+		/*
+		 * The connection is already known to be down, nothing is going
+		 * to arrive any more: hand out what may still be queued, but
+		 * do not wait for it (with ms_timeout == -1: for ever).
+		 */
+		ms_timeout = 0;
+	}
 
 	res = c->funcs.recv(&c->response, msg_ptr, msg_len, ms_timeout);
 	if (res >= 0) {
